@@ -86,7 +86,21 @@ def call_ok(sess, chk, recv, name, args=(), kwargs=None, label="", mk_replay=Non
         model = unsat_or_cex(chk, sess, sess.vc.c_any(cond), "%s: %s() raises %s" % (label, name, nm))
         if model is not None and mk_replay is not None:
             chk.counterexamples.append({"vc": "%s: %s() raises %s" % (label, name, nm), "replay": mk_replay(model, "%s raises %s" % (name, nm))})
-    return v
+    return feasible_part(sess, v)
+
+
+def feasible_part(sess, v):
+    """drop alternatives whose guard the solver proves infeasible (e.g. 'no value' alternatives
+    left behind by speculative evaluation of a path that cannot happen)"""
+    if type(v) is not U:
+        return v
+    keep = []
+    for g, leaf in v.alts:
+        if leaf is C.UNBOUND or len(v.alts) <= 3:
+            if sess.m.is_sat(g, "feasible") is False:
+                continue
+        keep.append((g, leaf))
+    return sess.vc.mk_union(keep, sweep=False)
 
 
 def items_of(v):
@@ -114,7 +128,8 @@ def must_hold(sess, chk, cond, name, mk_replay, detail=None):
     bad = m.NOT(g)
     model = unsat_or_cex(chk, sess, bad, name)
     if model is not None:
-        chk.counterexamples.append({"vc": name, "replay": mk_replay(model, name)})
+        if len(chk.counterexamples) < 4:
+            chk.counterexamples.append({"vc": name, "replay": mk_replay(model, name)})
         return False
     return True
 
@@ -122,7 +137,8 @@ def must_hold(sess, chk, cond, name, mk_replay, detail=None):
 def must_not(sess, chk, guard, name, mk_replay):
     model = unsat_or_cex(chk, sess, guard, name)
     if model is not None:
-        chk.counterexamples.append({"vc": name, "replay": mk_replay(model, name)})
+        if len(chk.counterexamples) < 4 or any(k in name for k in ("valid for the schema", "allOf", "pattern")):
+            chk.counterexamples.append({"vc": name, "replay": mk_replay(model, name)})
         return False
     return True
 
